@@ -12,9 +12,15 @@ class AnchorMissing(Exception):
 
 # ----------------------------------------------------------------------------- crate
 class Crate:
-    def __init__(self, path):
+    def __init__(self, path, view=None):
         with open(path) as f:
             self.d = json.load(f)
+        self.view = view
+        if view == "inlined":
+            # the second view of the same program: private helpers inlined into their callers (lib/inline_mir.py)
+            from lib import inline_mir
+            self.d = inline_mir.inline_crate(self.d)
+        self.inline_info = self.d.get("inline_info", {"dissolved": [], "helpers_of": {}})
         self.name = self.d["crate"]
         self.fns = {}
         for fd in self.d["fns"]:
